@@ -125,6 +125,14 @@ theorem firstPassMu_eq_lamMu (bp : MBlockProp β) :
   · simp
   · simp
 
+/-- **the element the planar magnetostatic assembly model adds** (`MSolver.magStiff`, inside the model that is compared bit for bit
+    with `Static2D`) **is the shared element** `ESolver.stiff` with unit depth and the reluctivities as coefficients — so symmetry, zero
+    row sums, the Galerkin form and the patch property (C03, C06) are statements about the assembled magnetostatic system -/
+theorem magStiff_eq_stiff (a mu1 mu2 : β) (p q : V3 β) (j k : Fin 3) :
+    magStiff (-1 / (4 * a)) mu1 mu2 p q j k = stiff 1 (1 / mu2) (1 / mu1) a 1 p q j k := by
+  rw [reluctivity_element_is_stiff]
+  fin_cases j <;> fin_cases k <;> simp [magStiff] <;> ring
+
 /-- a current-driven circuit without conducting regions gets the flat current density `circuitJ` … -/
 theorem circuitCase_flat (c001 : β) (cp : MCirc β) (int1 int3 : β) (ht : cp.typ = 0) (h1 : int1 ≠ 0) :
     circuitCase c001 cp int1 0 int3 = (1, circuitJ c001 cp.amps int3 int1, 0) := by
